@@ -53,7 +53,7 @@ mod annotation {
 
 // ---- the parser, reduced to what the two productions use
 #[derive(Clone, Copy)]
-enum TokenOp { Colon, Other(u8) }
+enum TokenOp { Colon, Arrow, Comma, RightBrace, Other(u8) }
 #[derive(Clone, Copy)]
 enum Keyword { If, Other(u8) }
 #[derive(Clone, Copy)]
@@ -75,6 +75,8 @@ impl SourceParser {
   fn peek(&mut self) -> (r: Token) { unimplemented!() }
   #[verifier::external_body]
   fn consume(&mut self) -> (r: Vec<Comment>) { unimplemented!() }
+  #[verifier::external_body]
+  fn assert_and_consume_operator(&mut self, expected_kind: TokenOp) -> (r: (Location, Vec<Comment>)) { unimplemented!() }
   #[verifier::external_body]
   fn parse_upper_id_with_comments(&mut self, associated_comments: Vec<Comment>) -> (r: Id) { unimplemented!() }
 }
@@ -118,8 +120,24 @@ fn parse_optional_type_arguments(parser: &mut SourceParser) -> (r: Option<TypeAr
 // =====================================================================================
 // postfix expressions: the range of `object.member<TypeArgs>` and of `callee(arguments)`
 // =====================================================================================
+mod pattern {
+  use super::*;
+  /// patterns are opaque here: only their range is read
+  #[verifier::external_body]
+  #[verifier::accept_recursive_types(T)]
+  pub struct MatchingPattern<T: Clone> { _p: core::marker::PhantomData<T> }
+  impl<T: Clone> MatchingPattern<T> {
+    pub uninterp spec fn range(self) -> Location;
+    #[verifier::external_body]
+    pub fn loc(&self) -> (r: &Location) ensures *r == self.range() { unimplemented!() }
+  }
+}
 mod expr {
   use super::*;
+//@extract crates/samlang-ast/src/source.rs :: mod expr / struct VariantPatternToExpression
+//@keeppub
+//@replace pattern::MatchingPattern<T> => super::pattern::MatchingPattern<T> ## R1: module path
+//@end
 //@extract crates/samlang-ast/src/source.rs :: mod expr / struct ExpressionCommon
 //@keeppub
 //@end
@@ -347,6 +365,32 @@ fn parse_block(parser: &mut SourceParser, associated_comments: Vec<Comment>) -> 
         expr::IfElseOrBlock::IfElse(e) => encloses(r.common.loc, e.common.loc),
         expr::IfElseOrBlock::Block(b) => encloses(r.common.loc, b.common.loc),
       },  // :if_else_range_runs_from_the_keyword_over_the_else_branch
+//@end
+
+// ---- one case of a match: `pattern -> body` up to its comma, or up to the end of the body in front of `}`
+mod pattern_parser {
+  use super::*;
+  #[verifier::external_body]
+  pub fn parse_matching_pattern(parser: &mut SourceParser, associated_comments: Vec<Comment>) -> (r: pattern::MatchingPattern<()>) { unimplemented!() }
+}
+#[verifier::external_body]
+fn parse_expression_with_additional_preceding_comments(parser: &mut SourceParser, additional_preceding_comments: Vec<Comment>) -> (r: expr::E<()>) { unimplemented!() }
+/// R3: the constant NO_COMMENT_REFERENCE
+#[verifier::external_body]
+fn no_comment_reference() -> (r: CommentReference) { unimplemented!() }
+
+//@extract crates/samlang-parser/src/source_parser.rs :: mod expression_parser / fn parse_pattern_to_expression
+//@ret r
+//@replace* super::SourceParser => SourceParser ## R1: module path
+//@replace super::pattern_parser::parse_matching_pattern => pattern_parser::parse_matching_pattern ## R1: module path
+//@replace NO_COMMENT_REFERENCE => no_comment_reference() ## R3: a constant of an opaque type
+//@contract
+    ensures
+      // a match case encloses its pattern, and its body when the body is what ends it (the last case, no comma)
+      encloses(r.loc, r.pattern.range()),  // :match_case_range_encloses_its_pattern
+      encloses(r.loc, r.body.range()) || exists|comma: Location| r.loc == #[trigger] joined(r.pattern.range(), comma),  // :match_case_range_ends_at_its_body_or_its_comma
+//@before expr::VariantPatternToExpression {
+    assert(encloses(loc, expression.range()) || exists|comma: Location| loc == #[trigger] joined(pattern.range(), comma));
 //@end
 
 // =====================================================================================
